@@ -198,6 +198,17 @@ package webdoc
 //@   fresh_assigns elems(ref), elems(string)
 //@   ensures inheap(tb.TextElements) && (samerow(tb.TextElements, old(tb.TextElements)) || freshslice(tb.TextElements))
 //@   ensures forall(x[*TextBlock], implies(x != tb, x.TextElements == old(x.TextElements)))
+//@   ensures [C02,C09] #merged-block-is-the-concatenation tb.Text == old(tb.Text) + "\n" + old(other.Text) && tb.NumWords == old(tb.NumWords) + old(other.NumWords) &&
+//@              tb.NumWordsInAnchor == old(tb.NumWordsInAnchor) + old(other.NumWordsInAnchor) && tb.isContent == old(tb.isContent || other.isContent) &&
+//@              tb.TagLevel == ite(old(other.TagLevel) < old(tb.TagLevel), old(other.TagLevel), old(tb.TagLevel))
+//@   ensures [C02] #text-elements-appended-in-order len(tb.TextElements) == old(len(tb.TextElements)) + old(len(other.TextElements)) &&
+//@              forall(i, 0 <= i && i < old(len(tb.TextElements)), tb.TextElements[i] == old(tb.TextElements[i])) &&
+//@              forall(j, 0 <= j && j < old(len(other.TextElements)), tb.TextElements[old(len(tb.TextElements)) + j] == old(other.TextElements[j]))
+//@   loop 0 invariant tb.Text == old(tb.Text) + "\n" + old(other.Text) && tb.NumWords == old(tb.NumWords) + old(other.NumWords) && tb.NumWordsInAnchor == old(tb.NumWordsInAnchor) + old(other.NumWordsInAnchor) &&
+//@              tb.isContent == old(tb.isContent || other.isContent) && tb.TagLevel == old(tb.TagLevel) && other.TagLevel == old(other.TagLevel)
+//@   loop 0 invariant len(tb.TextElements) == old(len(tb.TextElements)) + old(len(other.TextElements)) &&
+//@              forall(i, 0 <= i && i < old(len(tb.TextElements)), tb.TextElements[i] == old(tb.TextElements[i])) &&
+//@              forall(j, 0 <= j && j < old(len(other.TextElements)), tb.TextElements[old(len(tb.TextElements)) + j] == old(other.TextElements[j]))
 //@   loop 0 invariant tb != nil && other != nil && inheap(tb.TextElements) && (samerow(tb.TextElements, old(tb.TextElements)) || freshslice(tb.TextElements))
 //@   loop 0 invariant forall(x[*TextBlock], implies(x != tb, x.TextElements == old(x.TextElements)))
 
@@ -262,3 +273,10 @@ package webdoc
 //@ func (*Embed).GenerateOutput(textOnly)
 //@   requires e != nil && e.Element != nil
 //@   ensures [C05] #embedded-element-stripped textOnly || !(dom.TagName(e.Element) == "blockquote" || dom.TagName(e.Element) == "iframe") || inert(e.Element) == 1
+
+// C09/C20: the word count of a text document is the sum of the word counts of its content blocks
+//@ func (*TextDocument).CountWordsInContent()
+//@   requires td != nil && forall(i, 0 <= i && i < len(td.TextBlocks), td.TextBlocks[i] != nil)
+//@   assigns nothing
+//@   ensures [C09,C20] #sum-over-content-blocks result == contentWords(td.TextBlocks, 0)
+//@   loop 0 invariant numWords + contentWords(td.TextBlocks, ITER) == contentWords(td.TextBlocks, 0)
